@@ -11,6 +11,9 @@ var Children = map[string]func(args []string) int{}
 // property id in lower case (c13core, c18race, ...).
 var ChildRuns = map[string]func(*mon.Run){}
 
+// Replays re-run one recorded scenario from a replay file.
+var Replays = map[string]func(path string) int{}
+
 func init() {
 	Registry["C11"] = C11
 }
